@@ -15,6 +15,12 @@ EXCLUDE = (r"fmt$|Visitor|serde|Deserialize|Serialize|::hash$|ops::Index(Mut)?<u
            r"group::ff::Field>::(sqrt|sqrt_ratio|random)$|::random$|Group>::random$|PrimeFieldBits")
 # reviewed residuals: obligations the interval domain cannot discharge, each with its reason (keys have no line numbers)
 RESIDUALS = [
+    (r"edwards::EdwardsPoint as .*traits::(Vartime)?MultiscalarMul>::(optional_)?multiscalar_mul$", r"^call:panic$", r"^adt\{\}, &\(\(tuple\{",
+     "assert_eq! on the size hints of the two input iterators: the documented domain of (optional_)multiscalar_mul is two iterators of the same length (traits.rs: 'It is an error to call this function with two iterators of different lengths'); the abstract collections have independent lengths"),
+    (r"edwards::EdwardsPoint::nonspec_map_to_curve$", r"^call:expect$", r"^to_edwards\(&elligator_encode",
+     "expect() on to_edwards(elligator_encode(..)): to_edwards is None only for u = -1 (C15 checks that its None exits are exactly that test) and -1 is not the u-coordinate of a curve point, which is what elligator_encode returns (algebraic fact, not an interval fact)"),
+    (r"scalar::Scalar::batch_invert$", r"^call:panic$", r"acc\.pack\(\) != Scalar::ZERO",
+     "debug_assert!(acc.pack() != Scalar::ZERO): the documented precondition of batch_invert is that all inputs are non-zero (outside the documented domain otherwise)"),
     (r"field::<impl .*FieldElement\w+>::batch_invert$", r"^call:panic$", r"acc\.is_zero",
      "assert!(!acc.is_zero()): acc is the product of the inputs with zeros skipped, so it is never zero (algebraic fact, not an interval fact)"),
     (r"window::NafLookupTable\d::<T>::select$", r"^call:panic$", r"^adt\{\}, &\(\(tuple",
@@ -34,6 +40,7 @@ def run(tier, R):
     R.assume("A3: user-supplied iterators / slices behave as abstract collections of values satisfying the element invariant")
     R.assume("A4: non-zero NAF digits are odd (debug_assert_eq!(x & 1, 1) in NafLookupTable*::select)")
     R.note("vector (AVX2 / IFMA) and fiat backends: see DESIGN.md section 9 for their status in this check")
+    R.note("generic entry points (multiscalar Straus / Pippenger, Sum / Product folds, batch_invert, double_and_compress_batch, mul_bits_be) are analysed with abstract collections (A3); Pippenger is analysed once per window width (trace partitioning)")
     for (cfg, backend) in cfgs:
         F = FS.get((cfg, "checked"))
         if F is None:
